@@ -128,6 +128,27 @@ fn exercise(map: &Beatmap, rng: &mut Rng) -> usize {
             1 => st.clock_rate = Some(100.0),
             _ => {}
         }
+        // attribute overrides over the whole documented range [-20, 20] (Difficulty clamps there)
+        if rng.chance(1, 3) {
+            let mut wide = |rng: &mut Rng| -> Option<(f32, bool)> {
+                if rng.chance(1, 2) {
+                    let v = match rng.below(5) {
+                        0 => 20.0,
+                        1 => -20.0,
+                        2 => (rng.f64_range(11.0, 20.0) * 10.0).round() / 10.0,
+                        3 => (rng.f64_range(-20.0, 0.0) * 10.0).round() / 10.0,
+                        _ => (rng.f64_range(-20.0, 20.0) * 100.0).round() / 100.0,
+                    };
+                    Some((v as f32, rng.chance(1, 2)))
+                } else {
+                    None
+                }
+            };
+            st.ar = wide(rng).or(st.ar);
+            st.cs = wide(rng).or(st.cs);
+            st.hp = wide(rng).or(st.hp);
+            st.od = wide(rng).or(st.od);
+        }
         if (t == 1 || t == 3) && rng.chance(1, 3) {
             st.repr = 4;
             st.lazer_extra = rng.below(16) as u8;
